@@ -257,8 +257,9 @@ def free_batch(ctx, exe, cases, kind, tsan=False):
     """cases: (cap, prods, quotas, seed, perturb).  Free-running runs, property oracle only."""
     if not cases:
         return False
-    lines = ["pcqfree %d %s %s %d %d %d" % (c[0], fmt_prods(c[1]), fmt_list(c[2]), c[3], c[4], 0 if tsan else 1)
-             for c in cases]
+    # last field: SIGUSR1 (handler without SA_RESTART) fired at random threads about every <n> microseconds (0 = off)
+    lines = ["pcqfree %d %s %s %d %d %d %d" % (c[0], fmt_prods(c[1]), fmt_list(c[2]), c[3], c[4], 0 if tsan else 1,
+                                              0 if tsan else c[5]) for c in cases]
     if tsan:
         rc, o, e = stream.run_lines(exe, lines, timeout=900,
                                     env={"TSAN_OPTIONS": "halt_on_error=1 exitcode=66 report_signal_unsafe=0"})
@@ -290,7 +291,7 @@ def gen_free_case(rng, big):
         prods = unique_values([len(prods[0]), rng.randrange(1, 20)])
         tot = sum(len(p) for p in prods)
         quotas = split_total(rng, tot, len(quotas))
-    return cap, prods, quotas, rng.randrange(1, 1 << 30), rng.choice([0, 10, 30, 60])
+    return cap, prods, quotas, rng.randrange(1, 1 << 30), rng.choice([0, 10, 30, 60]), rng.choice([0, 60, 200, 600])
 
 
 # ---------------------------------------------------------------- ThreadPool / Chain streams (operation granularity)
@@ -380,6 +381,79 @@ def chain_line(c):
     return "chain %d %d %s %s" % (b, m, fmt_list(data), fmt_list(sched))
 
 
+def gen_schain(rng):
+    """source -> in-place filter (drops the negative records, SetValidSize(kept)) -> util::stream::Stream reader.
+    Drop patterns: arbitrary records, whole blocks, runs of consecutive blocks, the first blocks, the last blocks."""
+    b = rng.randrange(1, 5)
+    recs = rng.randrange(1, 4)
+    nblocks = rng.choice([0, 1, 2, 3, 4, 6, rng.randrange(0, 12)])
+    style = rng.choice(["random", "runs", "first", "last", "all", "none"])
+    blocks = []
+    v = 1
+    for i in range(nblocks):
+        k = rng.choice([recs, recs, rng.randrange(0, recs + 1)])
+        if style == "runs":
+            drop_block = (i // rng.choice([2, 3])) % 2 == 0
+        elif style == "first":
+            drop_block = i < max(1, nblocks // 2)
+        elif style == "last":
+            drop_block = i >= nblocks // 2
+        elif style == "all":
+            drop_block = True
+        elif style == "none":
+            drop_block = False
+        else:
+            drop_block = rng.random() < 0.4
+        blk = []
+        for _ in range(k):
+            neg = drop_block or (style == "random" and rng.random() < 0.3)
+            blk.append(-v if neg else v)
+            v += 1
+        blocks.append(blk)
+    # keep away from the known finding "stream-first-blocks-all-empty" only matters for a Stream attached in the
+    # main thread; here the reader runs in its own worker thread
+    sched = random_sched(rng, 5, rng.choice([0, 4 * (nblocks + b) * 4, 10 * (nblocks + b) * 4]))
+    return b, recs, blocks, sched
+
+
+def schain_line(c):
+    b, recs, blocks, sched = c
+    bl = ";".join(",".join(map(str, blk)) if blk else "0" for blk in blocks) or "-"
+    return "schain %d %d %s %s" % (b, recs, bl, fmt_list(sched))
+
+
+def schain_batch(ctx, hexe, dexe, cases):
+    if not cases:
+        return False
+    lines = [schain_line(c) for c in cases]
+    # at queue-operation level the three workers behave like the stages of the chain model with 3 workers
+    mlines = ["chain %d 3 %s %s" % (c[0], fmt_list([0] * len(c[2])), fmt_list(c[3])) for c in cases]
+    ho = run_harness(hexe, lines)
+    rc2, do, e2 = stream.run_lines(dexe, mlines, timeout=900)
+    for i, c in enumerate(cases):
+        ctx.count(("schain", lines[i]), nontrivial=len(c[2]) >= 2)
+        empties = sum(1 for blk in c[2] if all(v < 0 for v in blk))
+        ctx.hist("schain.empty_blocks", min(empties, 8))
+        want = [v for blk in c[2] for v in blk if v > 0]
+        if ho[i].startswith("HARNESS-DIED") or " END ok F " not in ho[i]:
+            ctx.violation("stream: the chain with a Stream reader did not finish / the harness died (assertion, ASan or "
+                          "Wait not returning): " + ho[i][-300:], {"stream": "schain", "op": lines[i], "impl": ho[i][-3000:]})
+            return True
+        got = ho[i].split(" END ok F ")[1].strip()
+        got = [int(x) for x in got.split(":", 1)[1].split(",") if x != ""] if ":" in got else []
+        if got != want:
+            ctx.violation("stream: records yielded by util::stream::Stream differ from the concatenation of the valid "
+                          "records of the blocks", {"stream": "schain", "op": lines[i], "impl_records": got,
+                                                    "expected": want})
+            return True
+        if i >= len(do) or ho[i].split(" END")[0] != do[i].split(" END")[0]:
+            ctx.violation("stream: model and implementation disagree on a driven schedule of the chain with a Stream reader",
+                          {"stream": "schain", "op": lines[i], "model_op": mlines[i], "impl": ho[i][:3000],
+                           "model": do[i][:3000] if i < len(do) else None}, no_input=True)
+            return True
+    return False
+
+
 def pool_chain_streams(ctx, hexe, dexe, problems):
     quick = ctx.tier == "quick"
     rng = ctx.rng
@@ -436,6 +510,11 @@ def pool_chain_streams(ctx, hexe, dexe, problems):
     for i in range(0, len(cases), 300):
         found = op_batch(ctx, hexe, dexe, "chain", cases[i:i + 300], chain_line,
                          lambda c, l: oracle_chain(c[0], c[1], c[2], l)) or found
+        if found:
+            return found
+    cases = [gen_schain(rng) for _ in range(120 if quick else 1500)]
+    for i in range(0, len(cases), 300):
+        found = schain_batch(ctx, hexe, dexe, cases[i:i + 300]) or found
         if found:
             return found
     return found
